@@ -5,6 +5,7 @@ go 1.23
 require (
 	github.com/flynn/noise v1.0.0
 	github.com/quic-go/quic-go v0.37.4
+	go.brendoncarroll.net/exp v0.0.0-20241118183830-280772e567eb
 	go.brendoncarroll.net/p2p v0.0.0
 	go.brendoncarroll.net/tai64 v0.0.0-20241118171318-6e12d283d5e4
 	go.uber.org/zap v1.24.0
@@ -19,7 +20,6 @@ require (
 	github.com/pkg/errors v0.9.1 // indirect
 	github.com/pmezard/go-difflib v1.0.0 // indirect
 	github.com/stretchr/testify v1.8.4 // indirect
-	go.brendoncarroll.net/exp v0.0.0-20241118183830-280772e567eb // indirect
 	go.brendoncarroll.net/stdctx v0.0.0-20241118190518-40d09f4d11e7 // indirect
 	go.uber.org/atomic v1.7.0 // indirect
 	go.uber.org/multierr v1.6.0 // indirect
